@@ -25,6 +25,16 @@ def flip(data, positions):
     return bytes(b)
 
 
+class _Packet:
+    """a message object as a protocol driver may define it: iterable over its bytes, hashable by identity"""
+
+    def __init__(self, data):
+        self.payload = list(data)
+
+    def __iter__(self):
+        return iter(self.payload)
+
+
 class C20(Lab):
     pid = "C20"
     design_ref = "3.12"
@@ -181,6 +191,23 @@ class C20(Lab):
                         buf[j] ^= 1 << (j % 8)
                         if self.call(buf) != bitserial(bytes(buf)):
                             raise Violation("C20/value-reused-buffer", f"buffer modified in place: crc7({bytes(buf).hex()}) = {self.call(buf)}, bit-serial {bitserial(bytes(buf))}")
+                # the same with message objects that are hashable (by identity) although their contents change:
+                # a packet class with __iter__, the values view of a register map
+                pkt = _Packet(d)
+                regs = dict(enumerate(d))
+                view = regs.values()
+                for obj, poke in ((pkt, lambda j, v: pkt.payload.__setitem__(j, v)), (view, lambda j, v: regs.__setitem__(j, v))):
+                    self.call(obj)
+                    for j in (0, len(d) // 2, len(d) - 1):
+                        cur = list(obj)
+                        poke(j, cur[j] ^ (1 << (j % 8)))
+                        now = bytes(obj)
+                        if self.call(obj) != bitserial(now):
+                            raise Violation("C20/value-reused-object", f"{type(obj).__name__} object whose contents changed between calls: crc7(<{now.hex()}>) = {self.call(obj)}, bit-serial {bitserial(now)}")
+                # and a grown message object
+                pkt.payload.append(0)
+                if self.call(pkt) != bitserial(bytes(pkt)):
+                    raise Violation("C20/value-reused-object", f"packet object with one more byte appended: crc7 = {self.call(pkt)}, bit-serial {bitserial(bytes(pkt))}")
             return {"nontrivial": len(d) >= 2, "classes": ["msg", f"len{min(len(d).bit_length(), 9)}"]}
         if k == "lin":
             a, b = bytes.fromhex(case["a"]), bytes.fromhex(case["b"])
